@@ -21,10 +21,12 @@ class _Return(Exception):
 
 
 class SmallEval:
-    def __init__(self, funcs=None, consts=None, methods=None):
+    def __init__(self, funcs=None, consts=None, methods=None, local_fns=None):
         self.funcs = funcs or {}
         self.consts = consts or {}
         self.methods = methods or {}
+        self.local_fns = local_fns      # name -> syntactic fn node: private helpers that may be folded as well
+        self._depth = 0
 
     # ---- entry ----
     def call(self, fn, args):
@@ -131,6 +133,11 @@ class SmallEval:
                 return {"<": l2 < r2, "<=": l2 <= r2, ">": l2 > r2, ">=": l2 >= r2}[op]
             if op in ("+", "-", "*") and isinstance(l, int) and isinstance(r, int) and not isinstance(l, bool):
                 return l + r if op == "+" else (l - r if op == "-" else l * r)
+            if op in ("/", "%") and isinstance(l, int) and isinstance(r, int) and not isinstance(l, bool):
+                if r == 0:
+                    raise NoEval("division by zero")
+                q = abs(l) // abs(r) * (1 if (l >= 0) == (r >= 0) else -1)     # Rust: truncation towards zero
+                return q if op == "/" else l - q * r
             raise NoEval(f"binary {op}")
         if k == "if":
             c = e["c"]
@@ -165,6 +172,12 @@ class SmallEval:
                 fn_ = self.funcs.get(name) or self.funcs.get(last)
                 if fn_ is not None:
                     return fn_(*args)
+                if self.local_fns is not None and "::" not in name and name in self.local_fns and self._depth < 4:
+                    self._depth += 1
+                    try:
+                        return self.call(self.local_fns[name], args)
+                    finally:
+                        self._depth -= 1
             raise NoEval(f"call `{src(f)[:40]}`")
         if k == "mcall":
             m = e["m"]
@@ -206,7 +219,11 @@ class SmallEval:
         if k == "macro" and e.get("name", "").endswith("matches") and "args" in e:
             raise NoEval("matches! (unexpanded)")
         if k == "cast":
-            return self.ev(e["e"], env)
+            v = self.ev(e["e"], env)
+            ty = str(e.get("ty", "")).replace(" ", "")
+            if isinstance(v, int) and not isinstance(v, bool) and ty in ("usize", "u64", "u32", "u8", "u16") and v < 0:
+                return v % (2 ** {"usize": 64, "u64": 64, "u32": 32, "u16": 16, "u8": 8}[ty])      # `as` wraps
+            return v
         if k == "paren":
             return self.ev(e["e"], env)
         raise NoEval(f"expression kind {k}: `{src(e)[:50]}`")
